@@ -8,6 +8,7 @@ package main
 //	cfg     the extractor's OTHER configuration (altConfig): dpkg IncludeNotInstalled, rpm without timeout, go/binary VersionFromContent,
 //	        java/archive without file-name fallback / hashing, cargo-auditable with build dependencies
 //	norel   no os-release file at all      usrlib  only usr/lib/os-release      osc  os-release with comments, blanks, odd lines
+//	osrh osrk osalp osub osb osv osid osnone   other distributions / missing ID, VERSION_ID, BUILD_ID (osVariants)
 //
 // The verdict is C02's own: Extract returns (inventory and / or error), no panic, no hang, bounded memory.
 
@@ -21,12 +22,55 @@ import (
 	"time"
 
 	"github.com/google/osv-scalibr/extractor/filesystem"
+	"github.com/google/osv-scalibr/extractor/filesystem/language/dotnet/depsjson"
+	"github.com/google/osv-scalibr/extractor/filesystem/language/dotnet/dotnetpe"
+	"github.com/google/osv-scalibr/extractor/filesystem/language/dotnet/packagesconfig"
+	"github.com/google/osv-scalibr/extractor/filesystem/language/dotnet/packageslockjson"
+	"github.com/google/osv-scalibr/extractor/filesystem/language/elixir/mixlock"
 	"github.com/google/osv-scalibr/extractor/filesystem/language/golang/gobinary"
+	"github.com/google/osv-scalibr/extractor/filesystem/language/haskell/cabal"
+	"github.com/google/osv-scalibr/extractor/filesystem/language/haskell/stacklock"
 	"github.com/google/osv-scalibr/extractor/filesystem/language/java/archive"
+	"github.com/google/osv-scalibr/extractor/filesystem/language/javascript/packagejson"
+	"github.com/google/osv-scalibr/extractor/filesystem/language/javascript/packagelockjson"
+	"github.com/google/osv-scalibr/extractor/filesystem/language/python/condameta"
+	"github.com/google/osv-scalibr/extractor/filesystem/language/python/requirements"
+	"github.com/google/osv-scalibr/extractor/filesystem/language/python/setup"
+	"github.com/google/osv-scalibr/extractor/filesystem/language/python/wheelegg"
+	"github.com/google/osv-scalibr/extractor/filesystem/language/ruby/gemspec"
 	"github.com/google/osv-scalibr/extractor/filesystem/language/rust/cargoauditable"
+	"github.com/google/osv-scalibr/extractor/filesystem/language/swift/packageresolved"
+	"github.com/google/osv-scalibr/extractor/filesystem/language/swift/podfilelock"
+	wpplugins "github.com/google/osv-scalibr/extractor/filesystem/misc/wordpress/plugins"
+	"github.com/google/osv-scalibr/extractor/filesystem/os/apk"
+	"github.com/google/osv-scalibr/extractor/filesystem/os/cos"
 	"github.com/google/osv-scalibr/extractor/filesystem/os/dpkg"
+	"github.com/google/osv-scalibr/extractor/filesystem/os/flatpak"
+	"github.com/google/osv-scalibr/extractor/filesystem/os/kernel/module"
+	"github.com/google/osv-scalibr/extractor/filesystem/os/kernel/vmlinuz"
+	"github.com/google/osv-scalibr/extractor/filesystem/os/macapps"
+	"github.com/google/osv-scalibr/extractor/filesystem/os/pacman"
+	"github.com/google/osv-scalibr/extractor/filesystem/os/portage"
 	"github.com/google/osv-scalibr/extractor/filesystem/os/rpm"
+	"github.com/google/osv-scalibr/extractor/filesystem/os/snap"
+	"github.com/google/osv-scalibr/stats"
 )
+
+// osVariants: run modes that only replace the content of etc/os-release (the fields the os/* extractors copy into their metadata and later turn
+// into the purl's distro / namespace and the OSV ecosystem: every fallback of toDistro / toNamespace / Ecosystem is one of these shapes).
+var osVariants = map[string]string{
+	"osc":    "# os-release\n\nNAME='Debian GNU/Linux'\nnot an assignment\nID=debian \n#ID=other\nVERSION_ID=\"12\"\nVERSION_CODENAME=bookworm\nEMPTY=\n=novalue\n",
+	"osrh":   "NAME=\"Red Hat Enterprise Linux\"\nID=\"rhel\"\nVERSION_ID=\"9.3\"\n",
+	"osrk":   "NAME=\"Rocky Linux\"\nID=\"rocky\"\nVERSION_ID=\"9.3\"\n",
+	"osalp":  "NAME=\"Alpine Linux\"\nID=alpine\nVERSION_ID=3.18.4\n",
+	"osub":   "NAME=\"Ubuntu\"\nID=ubuntu\nVERSION_ID=\"22.04\"\nVERSION_CODENAME=jammy\n",
+	"osb":    "NAME=Arch\nID=arch\nBUILD_ID=rolling\n",
+	"osv":    "NAME=x\nVERSION_ID=1\n",
+	"osid":   "ID=gentoo\n",
+	"osnone": "NAME=x\n",
+}
+
+var osVariantNames = []string{"osc", "osrh", "osrk", "osalp", "osub", "osb", "osv", "osid", "osnone"}
 
 type onlyReader struct{ r io.Reader }
 
@@ -59,6 +103,175 @@ func mapFSOf(root string) (fstest.MapFS, error) {
 		return nil
 	})
 	return m, err
+}
+
+// withStats: the same 31 extractors as limits.go's sizeLimited, constructed with a stats.Collector (the metrics callbacks around FileRequired and
+// Extract: `if e.stats != nil { … input.Info.Size() … }`). Run modes `stat` (collector, Info set) and `statnil` (collector, ScanInput.Info == nil:
+// a caller that does not stat — several extractors guard `input.Info != nil` explicitly, wheelegg returns ErrSizeNotSet for it).
+type recCollector struct {
+	stats.NoopCollector
+	extracted, required int
+}
+
+func (c *recCollector) AfterFileRequired(string, *stats.FileRequiredStats)   { c.required++ }
+func (c *recCollector) AfterFileExtracted(string, *stats.FileExtractedStats) { c.extracted++ }
+
+var withStats = map[string]func(col stats.Collector) filesystem.Extractor{
+	"dotnet/depsjson": func(col stats.Collector) filesystem.Extractor {
+		c := depsjson.DefaultConfig()
+		c.Stats = col
+		return depsjson.New(c)
+	},
+	"dotnet/pe": func(col stats.Collector) filesystem.Extractor {
+		c := dotnetpe.DefaultConfig()
+		c.Stats = col
+		return dotnetpe.New(c)
+	},
+	"dotnet/packagesconfig": func(col stats.Collector) filesystem.Extractor {
+		c := packagesconfig.DefaultConfig()
+		c.Stats = col
+		return packagesconfig.New(c)
+	},
+	"dotnet/packageslockjson": func(col stats.Collector) filesystem.Extractor {
+		c := packageslockjson.DefaultConfig()
+		c.Stats = col
+		return packageslockjson.New(c)
+	},
+	"elixir/mixlock": func(col stats.Collector) filesystem.Extractor {
+		c := mixlock.DefaultConfig()
+		c.Stats = col
+		return mixlock.New(c)
+	},
+	"go/binary": func(col stats.Collector) filesystem.Extractor {
+		c := gobinary.DefaultConfig()
+		c.Stats = col
+		return gobinary.New(c)
+	},
+	"haskell/cabal": func(col stats.Collector) filesystem.Extractor {
+		c := cabal.DefaultConfig()
+		c.Stats = col
+		return cabal.New(c)
+	},
+	"haskell/stacklock": func(col stats.Collector) filesystem.Extractor {
+		c := stacklock.DefaultConfig()
+		c.Stats = col
+		return stacklock.New(c)
+	},
+	"java/archive": func(col stats.Collector) filesystem.Extractor {
+		c := archive.DefaultConfig()
+		c.Stats = col
+		return archive.New(c)
+	},
+	"javascript/packagejson": func(col stats.Collector) filesystem.Extractor {
+		c := packagejson.DefaultConfig()
+		c.Stats = col
+		return packagejson.New(c)
+	},
+	"javascript/packagelockjson": func(col stats.Collector) filesystem.Extractor {
+		c := packagelockjson.DefaultConfig()
+		c.Stats = col
+		return packagelockjson.New(c)
+	},
+	"python/condameta": func(col stats.Collector) filesystem.Extractor {
+		c := condameta.DefaultConfig()
+		c.Stats = col
+		return condameta.New(c)
+	},
+	"python/requirements": func(col stats.Collector) filesystem.Extractor {
+		c := requirements.DefaultConfig()
+		c.Stats = col
+		return requirements.New(c)
+	},
+	"python/setup": func(col stats.Collector) filesystem.Extractor {
+		c := setup.DefaultConfig()
+		c.Stats = col
+		return setup.New(c)
+	},
+	"python/wheelegg": func(col stats.Collector) filesystem.Extractor {
+		c := wheelegg.DefaultConfig()
+		c.Stats = col
+		return wheelegg.New(c)
+	},
+	"ruby/gemspec": func(col stats.Collector) filesystem.Extractor {
+		c := gemspec.DefaultConfig()
+		c.Stats = col
+		return gemspec.New(c)
+	},
+	"rust/cargoauditable": func(col stats.Collector) filesystem.Extractor {
+		c := cargoauditable.DefaultConfig()
+		c.Stats = col
+		return cargoauditable.New(c)
+	},
+	"swift/packageresolved": func(col stats.Collector) filesystem.Extractor {
+		c := packageresolved.DefaultConfig()
+		c.Stats = col
+		return packageresolved.New(c)
+	},
+	"swift/podfilelock": func(col stats.Collector) filesystem.Extractor {
+		c := podfilelock.DefaultConfig()
+		c.Stats = col
+		return podfilelock.New(c)
+	},
+	"wordpress/plugins": func(col stats.Collector) filesystem.Extractor {
+		c := wpplugins.DefaultConfig()
+		c.Stats = col
+		return wpplugins.New(c)
+	},
+	"os/apk": func(col stats.Collector) filesystem.Extractor {
+		c := apk.DefaultConfig()
+		c.Stats = col
+		return apk.New(c)
+	},
+	"os/cos": func(col stats.Collector) filesystem.Extractor {
+		c := cos.DefaultConfig()
+		c.Stats = col
+		return cos.New(c)
+	},
+	"os/dpkg": func(col stats.Collector) filesystem.Extractor {
+		c := dpkg.DefaultConfig()
+		c.Stats = col
+		return dpkg.New(c)
+	},
+	"os/flatpak": func(col stats.Collector) filesystem.Extractor {
+		c := flatpak.DefaultConfig()
+		c.Stats = col
+		return flatpak.New(c)
+	},
+	"os/kernel/module": func(col stats.Collector) filesystem.Extractor {
+		c := module.DefaultConfig()
+		c.Stats = col
+		return module.New(c)
+	},
+	"os/kernel/vmlinuz": func(col stats.Collector) filesystem.Extractor {
+		c := vmlinuz.DefaultConfig()
+		c.Stats = col
+		return vmlinuz.New(c)
+	},
+	"os/macapps": func(col stats.Collector) filesystem.Extractor {
+		c := macapps.DefaultConfig()
+		c.Stats = col
+		return macapps.New(c)
+	},
+	"os/pacman": func(col stats.Collector) filesystem.Extractor {
+		c := pacman.DefaultConfig()
+		c.Stats = col
+		return pacman.New(c)
+	},
+	"os/portage": func(col stats.Collector) filesystem.Extractor {
+		c := portage.DefaultConfig()
+		c.Stats = col
+		return portage.New(c)
+	},
+	"os/rpm": func(col stats.Collector) filesystem.Extractor {
+		c := rpm.DefaultConfig()
+		c.Stats = col
+		return rpm.New(c)
+	},
+	"os/snap": func(col stats.Collector) filesystem.Extractor {
+		c := snap.DefaultConfig()
+		c.Stats = col
+		return snap.New(c)
+	},
 }
 
 var altConfig = map[string]func() filesystem.Extractor{
